@@ -27,6 +27,10 @@ impl ElectionTimer {
         min: u64,
         max: u64,
     ) -> Duration {
+        #[cfg(feature = "verif-hooks")]
+        if let Some(t) = crate::verif::election_timeout_override(min, max) {
+            return Duration::from_millis(t);
+        }
         let mut rng = rand::rng();
         let timeout = rng.random_range(min..max);
         Duration::from_millis(timeout)
